@@ -8,13 +8,19 @@ package c13
 
 import (
 	"bytes"
+	"encoding/json"
+	"flag"
 	"fmt"
 	"io"
 	"log"
+	"math"
 	"net/http"
 	"net/http/httptest"
+	"os"
+	"path/filepath"
 	"runtime"
 	"sort"
+	"strconv"
 	"strings"
 	"sync"
 	"sync/atomic"
@@ -25,10 +31,11 @@ import (
 	"github.com/EliCDavis/polyform/generator/parameter"
 	"github.com/EliCDavis/polyform/nodes"
 	"github.com/EliCDavis/polyform/refutil"
+	"github.com/EliCDavis/vector/vector3"
 	"github.com/anishathalye/porcupine"
 	"pgregory.net/rapid"
 
-	_ "github.com/EliCDavis/polyform/generator/artifact/basics"
+	"github.com/EliCDavis/polyform/generator/artifact/basics"
 
 	"verifharness/internal/vh"
 )
@@ -460,7 +467,317 @@ func runHTTP(c Case, o *vh.Obs) *vh.Failure {
 	return nil
 }
 
+// ---------------------------------------------------------------- typed parameters (float, point list, file given on the command line)
+
+// FmtSF / FmtVB render two typed inputs each, yielding between the reads.
+type FmtSFData struct {
+	S nodes.NodeOutput[string]
+	F nodes.NodeOutput[float64]
+}
+
+func (d FmtSFData) Process() (string, error) {
+	s := d.S.Value()
+	runtime.Gosched()
+	return s + "|" + canonF(d.F.Value()), nil
+}
+
+type FmtVBData struct {
+	V nodes.NodeOutput[[]vector3.Float64]
+	B nodes.NodeOutput[[]byte]
+}
+
+func (d FmtVBData) Process() (string, error) {
+	v := canonV(d.V.Value())
+	runtime.Gosched()
+	return v + "|" + string(d.B.Value()), nil
+}
+
+func canonF(f float64) string { return strconv.FormatFloat(f, 'g', -1, 64) } // "-0" for negative zero
+
+func canonV(v []vector3.Float64) string {
+	var sb strings.Builder
+	sb.WriteString("[")
+	for _, p := range v {
+		fmt.Fprintf(&sb, "(%s,%s,%s)", canonF(p.X()), canonF(p.Y()), canonF(p.Z()))
+	}
+	return sb.String() + "]"
+}
+
+// TOp: Val 0..2 picks a value from the parameter's small pool (repeats, 0 and -0, the empty list),
+// 3 a value unique to this operation.
+type TOp struct {
+	Kind  int // 0 update, 1 read, 2 artifact
+	Param int // 0 string, 1 float64, 2 []vector3, 3 file
+	Val   int
+	Yield int
+}
+
+type TCase struct {
+	Clients [][]TOp
+	Procs   int
+	Cli     bool // the file parameter is given on the command line and not touched before the history starts
+}
+
+func genTyped(t *rapid.T) TCase {
+	nc := rapid.IntRange(2, 6).Draw(t, "clients")
+	c := TCase{Procs: rapid.SampledFrom([]int{2, 3, 4, 8, 16}).Draw(t, "procs"), Cli: rapid.Bool().Draw(t, "cli")}
+	for i := 0; i < nc; i++ {
+		profile := rapid.IntRange(0, 3).Draw(t, "profile")
+		script := rapid.SliceOfN(rapid.Custom(func(t *rapid.T) TOp {
+			var kinds []int
+			switch profile {
+			case 0:
+				kinds = []int{0, 0, 0, 1}
+			case 1:
+				kinds = []int{2, 2, 1, 0}
+			case 2:
+				kinds = []int{1, 1, 1, 2}
+			default:
+				kinds = []int{0, 1, 2}
+			}
+			return TOp{Kind: rapid.SampledFrom(kinds).Draw(t, "kind"), Param: rapid.IntRange(0, 3).Draw(t, "param"),
+				Val: rapid.IntRange(0, 3).Draw(t, "val"), Yield: rapid.IntRange(0, 3).Draw(t, "yield")}
+		}), 3, 10).Draw(t, "script")
+		c.Clients = append(c.Clients, script)
+	}
+	return c
+}
+
+// typedValue gives the message sent for an update and the canonical text of the value.
+func typedValue(param, val int, run int64, ci, k int) (msg []byte, canon string) {
+	switch param {
+	case 0:
+		v := []string{"i", "x", ""}[val%3]
+		if val == 3 {
+			v = fmt.Sprintf("t%dc%dk%d", run, ci, k)
+		}
+		msg, _ = json.Marshal(v)
+		return msg, v
+	case 1:
+		v := []float64{0, math.Copysign(0, -1), 1}[val%3]
+		if val == 3 {
+			v = float64(run%100000)*1000 + float64(ci*100+k) + 0.5
+		}
+		return []byte(canonF(v)), canonF(v)
+	case 2:
+		v := [][]vector3.Float64{{}, {vector3.New(1., 2, 3)}, {vector3.New(1., 2, 3), vector3.New(4., 5, 6)}}[val%3]
+		if val == 3 {
+			v = []vector3.Float64{vector3.New(float64(run%100000), float64(ci), float64(k))}
+		}
+		msg, _ = json.Marshal(v)
+		return msg, canonV(v)
+	default:
+		v := []string{"abc", "z", "abc"}[val%3]
+		if val == 3 {
+			v = fmt.Sprintf("f%dc%dk%d", run, ci, k)
+		}
+		return []byte(v), v
+	}
+}
+
+// typedRead turns ParameterData's answer into the canonical text ("?..." when it cannot be decoded).
+func typedRead(param int, data []byte) string {
+	switch param {
+	case 0:
+		var v string
+		if json.Unmarshal(data, &v) != nil {
+			return "?" + string(data)
+		}
+		return v
+	case 1:
+		var v float64
+		if json.Unmarshal(data, &v) != nil {
+			return "?" + string(data)
+		}
+		if strings.HasPrefix(strings.TrimSpace(string(data)), "-") && v == 0 {
+			v = math.Copysign(0, -1)
+		}
+		return canonF(v)
+	case 2:
+		var v []vector3.Float64
+		if json.Unmarshal(data, &v) != nil {
+			return "?" + string(data)
+		}
+		return canonV(v)
+	}
+	return string(data)
+}
+
+func renderTyped(s [4]string, artifact int) string {
+	sf, vb := s[0]+"|"+s[1], s[2]+"|"+s[3]
+	if artifact == 0 {
+		return sf + "|" + vb
+	}
+	return vb + "|" + sf
+}
+
+var typedModel = porcupine.Model{
+	Step: func(state, input, output interface{}) (bool, interface{}) {
+		s := state.([4]string)
+		o := input.(linIn)
+		switch o.kind {
+		case 0:
+			s[o.param] = o.val
+			return true, s
+		case 1:
+			return output.(string) == s[o.param], s
+		default:
+			return output.(string) == renderTyped(s, o.param%2), s
+		}
+	},
+	Equal:             func(a, b interface{}) bool { return a.([4]string) == b.([4]string) },
+	DescribeOperation: model.DescribeOperation,
+}
+
+const cliFileContent = "given-on-the-command-line"
+
+var cliFile = sync.OnceValue(func() string {
+	p := filepath.Join(filepath.Dir(os.Getenv("VERIF_OUT")), fmt.Sprintf("c13_cli_file_%d.bin", vh.Shard))
+	if os.Getenv("VERIF_OUT") == "" {
+		p = filepath.Join(os.TempDir(), "c13_cli_file.bin")
+	}
+	if err := os.WriteFile(p, []byte(cliFileContent), 0o644); err != nil {
+		panic(err)
+	}
+	return p
+})
+
+func runTyped(c TCase, o *vh.Obs) *vh.Failure {
+	if len(c.Clients) < 2 {
+		return nil
+	}
+	procs := c.Procs
+	if procs < 2 {
+		procs = 2
+	}
+	old := runtime.GOMAXPROCS(procs)
+	defer runtime.GOMAXPROCS(old)
+
+	ps := &parameter.String{Name: "S", DefaultValue: "i"}
+	pf := &parameter.Float64{Name: "F", DefaultValue: 7}
+	pv := &parameter.Vector3Array{Name: "V"}
+	pb := &parameter.File{Name: "B", DefaultValue: []byte("dflt"), CLI: &parameter.CliConfig[string]{FlagName: "b", Usage: "file"}}
+	sf := &nodes.Struct[string, FmtSFData]{Data: FmtSFData{S: ps.Out(), F: pf.Out()}}
+	vb := &nodes.Struct[string, FmtVBData]{Data: FmtVBData{V: pv.Out(), B: pb.Out()}}
+	a := &CatNode{Data: CatData{A: sf.Out(), B: vb.Out()}}
+	b := &CatNode{Data: CatData{A: vb.Out(), B: sf.Out()}}
+	inst := graph.New(&refutil.TypeFactory{})
+	inst.AddProducer("a.txt", basics.NewTextNode(a.Out()))
+	inst.AddProducer("b.txt", basics.NewTextNode(b.Out()))
+	flags := flag.NewFlagSet("c13", flag.ContinueOnError)
+	inst.InitializeParameters(flags)
+	init := [4]string{"i", "7", "[]", "dflt"}
+	var args []string
+	if c.Cli {
+		args = []string{"-b", cliFile()}
+		init[3] = cliFileContent
+		o.Class("typed/file-given-on-command-line")
+	}
+	if err := flags.Parse(args); err != nil {
+		return vh.Failf("harness/flags", "%v", err)
+	}
+	pids := []string{inst.NodeId(ps), inst.NodeId(pf), inst.NodeId(pv), inst.NodeId(pb)}
+
+	run := atomic.AddInt64(&caseCounter, 1)
+	var clock int64
+	var mu sync.Mutex
+	var hist []porcupine.Operation
+	var crashes []string
+	var wg sync.WaitGroup
+	start := make(chan struct{})
+	names := []string{"a.txt", "b.txt"}
+	for ci, script := range c.Clients {
+		wg.Add(1)
+		go func(ci int, script []TOp) {
+			defer wg.Done()
+			<-start
+			for k, op := range script {
+				for y := 0; y < op.Yield; y++ {
+					runtime.Gosched()
+				}
+				in := linIn{kind: op.Kind, param: ((op.Param % 4) + 4) % 4}
+				var msg []byte
+				if op.Kind == 0 {
+					msg, in.val = typedValue(in.param, ((op.Val%4)+4)%4, run, ci, k)
+				}
+				var out string
+				var crashed any
+				call := atomic.AddInt64(&clock, 1)
+				func() {
+					defer func() { crashed = recover() }()
+					switch in.kind {
+					case 0:
+						if _, err := inst.UpdateParameter(pids[in.param], msg); err != nil {
+							crashed = fmt.Sprintf("UpdateParameter(%s) returned %v", msg, err)
+						}
+					case 1:
+						out = typedRead(in.param, inst.ParameterData(pids[in.param]))
+					default:
+						b := &bytes.Buffer{}
+						inst.Artifact(names[in.param%2]).Write(b)
+						out = b.String()
+					}
+				}()
+				ret := atomic.AddInt64(&clock, 1)
+				mu.Lock()
+				if crashed != nil {
+					crashes = append(crashes, fmt.Sprintf("client %d op %d (%s): %v", ci, k, model.DescribeOperation(in, out), crashed))
+				}
+				hist = append(hist, porcupine.Operation{ClientId: ci, Input: in, Call: call, Output: out, Return: ret})
+				mu.Unlock()
+			}
+		}(ci, script)
+	}
+	close(start)
+	wg.Wait()
+	describe := func() string {
+		sort.Slice(hist, func(i, j int) bool { return hist[i].Call < hist[j].Call })
+		var sb strings.Builder
+		fmt.Fprintf(&sb, "  parameters p0 string, p1 float64, p2 point list, p3 file; initial values %q\n", init)
+		for _, h := range hist {
+			fmt.Fprintf(&sb, "  [%3d,%3d] client %d: %s\n", h.Call, h.Return, h.ClientId, model.DescribeOperation(h.Input, h.Output))
+		}
+		return sb.String()
+	}
+	if len(crashes) > 0 {
+		sort.Strings(crashes)
+		return vh.Failf("typed/crash", "an operation panicked or failed during a concurrent history: %s\nhistory (logical call/return stamps):\n%s", crashes[0], describe())
+	}
+	if r := vh.RaceReport(); r != "" {
+		return vh.RaceFailure(r)
+	}
+	repeats, zeros := false, false
+	last := map[int]string{}
+	for _, h := range hist {
+		if in := h.Input.(linIn); in.kind == 0 {
+			if last[in.param] == in.val {
+				repeats = true
+			}
+			if in.param == 1 && (in.val == "0" || in.val == "-0") && (last[1] == "0" || last[1] == "-0") && last[1] != in.val {
+				zeros = true
+			}
+			last[in.param] = in.val
+		}
+	}
+	o.NonTrivial()
+	if repeats {
+		o.Class("typed/update-repeats-the-previous-value")
+	}
+	if zeros {
+		o.Class("typed/zero-to-negative-zero-or-back")
+	}
+	o.Class(fmt.Sprintf("typed/clients/%d", len(c.Clients)))
+	o.Count("typed-operations", len(hist))
+	m := typedModel
+	m.Init = func() interface{} { return init }
+	if !porcupine.CheckOperations(m, hist) {
+		return vh.Failf("typed/not-linearizable", "no sequential order consistent with real time explains this history:\n%s", describe())
+	}
+	return nil
+}
+
 func TestC13(t *testing.T) {
 	vh.Drive(t, vh.Spec[Case]{Name: "histories", Quick: 24000, Thorough: 800000, Gen: genCase, Run: runCase, Repeat: 50})
 	vh.Drive(t, vh.Spec[Case]{Name: "http-histories", Quick: 6000, Thorough: 200000, Gen: genCase, Run: runHTTP, Repeat: 50})
+	vh.Drive(t, vh.Spec[TCase]{Name: "typed-histories", Quick: 12000, Thorough: 400000, Gen: genTyped, Run: runTyped, Repeat: 50})
 }
